@@ -3,6 +3,10 @@
 import json, os
 V = os.path.dirname(os.path.abspath(__file__))
 CHECKS = {
+ "C18": dict(
+  text="Randomised search (rapid) over model specs: spec -> generated models (binary built from the tree) -> codescan.Run over the generated package -> normalised, position-by-position comparison of every definition (names, types, formats, required, $ref / allOf structure, additionalProperties, readOnly, discriminator, every validation keyword). Thirteen root-cause classes of genuine losses are listed known findings; one defect was repaired.",
+  note="References to anonymous types lifted by the generator are followed (naming of lifted types is not part of the property); defaults, examples, text and x-* extensions are ignored as the property allows.",
+  tech="property-based testing (rapid): round trip through both halves of the toolkit with a normalising structural comparison"),
  "C05": dict(
   text="Randomised search (rapid) over model programs (schema fragment of C02 plus tuples, discriminated base types reached through properties and arrays, allOf compositions with container-typed members, property names that are not Go identifiers) x documents valid for the schema, biased to zero values and empty containers; oracle: schema-directed comparison of Marshal(Unmarshal(doc)) with doc under the three documented tolerances, and idempotence of the second pass. Eight root-cause classes of genuine losses/additions are listed known findings.",
   note="Validity of documents is decided by the self-written schema validator; documents the generated model rejects belong to C02; date-time and duration values are compared by denoted value.",
